@@ -1,12 +1,19 @@
 import PetgraphModel.Common
 import PetgraphModel.Model.UnionFind
 import PetgraphModel.Spec.Partition
+import PetgraphModel.Spec.C19Scope
 /-
 C19 driver: runs the mirror model (`UF`) and the abstract partition (`QF`) side by side with the
 implementation's answers.  Spec-level rules are exactly the clauses of the property statement.
+
+Scope: the property theorems quantify over histories within the capacity of the index type
+(`Fits`; `u8`: 256 elements).  Before every call that grows the structure (`new`, `new_set`, `grow`)
+the driver evaluates the Boolean form of that hypothesis (`C19Scope.newFitsB/stepFitsB/growFitsB`,
+sound by `C19_*_check`) and the element-count bound of the `u8` rank theorem (`rankWidthB`); a case
+that leaves the range is a generator error, answered `SPECFAIL generator left the proved range`.
 -/
 namespace PetgraphModel.C19
-open PetgraphModel PetgraphModel.UF PetgraphModel.PartitionSpec
+open PetgraphModel PetgraphModel.UF PetgraphModel.PartitionSpec PetgraphModel.C19Scope
 
 structure DState where
   uf : UF.State := UF.new 0 0
@@ -30,7 +37,7 @@ def showOut : UF.Out → String
 
 def inRange (d : DState) (x : Nat) : Bool := x < d.qf.len
 
-/-- is `r` an acceptable representative answer for in-range `x`? -/
+/-- is `r` an acceptable representative answer for in-range `x`? (sound by `C19_repOk_sound`) -/
 def repOk (d : DState) (x : Nat) (r : String) : Option String :=
   match r.toNat? with
   | none => some s!"representative expected, got [{r}]"
@@ -46,19 +53,21 @@ def repOk (d : DState) (x : Nat) (r : String) : Option String :=
         | none => none
       | none => none
 
-/-- spec-level check of a dump (the representative of every element) -/
+/-- the per-element test of `dumpOk`: is the representative of `x` in `reps` unacceptable? -/
+def dumpBad (d : DState) (reps : List Nat) (x : Nat) : Bool :=
+  match reps[x]?, d.qf.cls[x]? with
+  | some r, some c =>
+    !(d.qf.same x r) || (reps[c]? != some r) ||
+    (match d.lastDump with
+      | some old => !(d.touched.contains c) && x < old.length && old[x]? != some r
+      | none => false)
+  | _, _ => true
+
+/-- spec-level check of a dump (the representative of every element); sound by `C19_dumpOk_sound` -/
 def dumpOk (d : DState) (reps : List Nat) : Option String :=
   if reps.length ≠ d.qf.len then some s!"dump has {reps.length} entries, len is {d.qf.len}"
   else
-    let bad := (List.range reps.length).find? fun x =>
-      match reps[x]?, d.qf.cls[x]? with
-      | some r, some c =>
-        !(d.qf.same x r) || (reps[c]? != some r) ||
-        (match d.lastDump with
-          | some old => !(d.touched.contains c) && x < old.length && old[x]? != some r
-          | none => false)
-      | _, _ => true
-    match bad with
+    match (List.range reps.length).find? (dumpBad d reps) with
     | some x => some s!"representatives inconsistent at element {x}: reps={showNats reps} classes={showNats d.qf.cls}"
     | none => none
 
@@ -69,6 +78,15 @@ def verdict (spec : Option String) (model impl : String) : String :=
 
 def expect (want impl : String) : Option String :=
   if want == impl then none else some s!"expected [{want}], implementation answered [{impl}]"
+
+/-- the scope check of a growing call: `fits` is the capacity hypothesis evaluated on the state BEFORE
+the call, `s'` the model state after it -/
+def scopeCheck (fits : Bool) (s s' : UF.State) (what : String) : Option String :=
+  if !fits then
+    some s!"generator left the proved range: {what} beyond the capacity of the index type (len {s.len}, modulus {s.modulus})"
+  else if !(rankWidthB s') then
+    some s!"generator left the proved range: {s'.len} elements, the u8 rank bound is proved below 2^256"
+  else none
 
 def modulusOf (w : String) : Nat :=
   match w with
@@ -82,19 +100,22 @@ def step (d : DState) (req : List String) (impl : String) : DState × String :=
   | ["case", k, w] => ({ uf := UF.new (modulusOf w) 0 }, s!"case {k}")
   | ["new", n] =>
     let n := n.toNat?.getD 0
-    ({ d with uf := UF.new d.uf.modulus n, qf := QF.new n, lastDump := none, touched := [] },
-      verdict (expect "ok" impl) "ok" impl)
+    let uf' := UF.new d.uf.modulus n
+    let spec := (scopeCheck (newFitsB d.uf.modulus n) uf' uf' s!"new({n})").orElse fun _ => expect "ok" impl
+    ({ d with uf := uf', qf := QF.new n, lastDump := none, touched := [] }, verdict spec "ok" impl)
   | ["new_set"] =>
     let (d', m) := runOp .newSet
-    let spec := expect (toString d.qf.len) impl
+    let spec := (scopeCheck (stepFitsB d.uf .newSet) d.uf d'.uf "new_set").orElse fun _ =>
+      expect (toString d.qf.len) impl
     let q := d.qf.newSet
     ({ d' with qf := q, touched := (q.len - 1) :: d.touched }, verdict spec m impl)
   | ["grow", k] =>
     -- `k` times `new_set` (hub family), answered once
     let k := k.toNat?.getD 0
-    let uf' := (List.range k).foldl (fun u _ => (UF.step u .newSet).1) d.uf
+    let uf' := grow d.uf k
     let q := (List.range k).foldl (fun q _ => q.newSet) d.qf
-    ({ d with uf := uf', qf := q, lastDump := none, touched := [] }, verdict (expect "ok" impl) "ok" impl)
+    let spec := (scopeCheck (growFitsB d.uf k) d.uf uf' s!"grow {k}").orElse fun _ => expect "ok" impl
+    ({ d with uf := uf', qf := q, lastDump := none, touched := [] }, verdict spec "ok" impl)
   | [f, x] =>
     let xn := x.toNat?.getD 0
     let mk : Option UF.Op := match f with
@@ -140,6 +161,10 @@ def step (d : DState) (req : List String) (impl : String) : DState × String :=
   | ["len"] =>
     let (d', m) := runOp .len
     (d', verdict (expect (toString d.qf.len) impl) m impl)
+  | ["ranks"] =>
+    -- the `rank` vector as printed by the derived `Debug`: not determined by the property, so it is
+    -- compared exactly with the mirror model only (a difference is a MODELDIFF, never a SPECFAIL)
+    (d, verdict none (showNats (ranks d.uf)) impl)
   | ["labeling"] =>
     let (d', m) := runOp .labeling
     -- a labeling is judged like a dump, except that it need not coincide with `find`'s choice
